@@ -780,7 +780,9 @@ func (e *Exec) legacyState(n *Node, h int64) {
 		return
 	}
 	_, _ = n.guard("legacyState", func() {
-		n.App.UpgradeKeeper.SetModuleVersionMap(n.DeliverCtx(), map[string]uint64{"wasm": 1})
+		// ... and the custom modules at consensus version 1, the lowest there is: what every earlier release recorded for them.
+		// A binary that ships a higher version runs its migrations in the upgrade block, on a populated chain.
+		n.App.UpgradeKeeper.SetModuleVersionMap(n.DeliverCtx(), map[string]uint64{"wasm": 1, "aol": 1, "did": 1, "pnft": 1, "burn": 1})
 	})
 	if n.ID == 0 {
 		e.Stats.Inc("fault.upgrade.legacy_version_map")
@@ -1534,8 +1536,9 @@ func (e *Exec) judgeTx(p *pendingTx, bt *BuiltTx, pred *prediction, accepted boo
 		}
 		return
 	}
-	if tr.Codespace == "sdk" && tr.Code == 30 && p.Spec != nil && p.Spec.Timeout < 0 {
-		// the transaction's timeout height had passed: refused by the SDK's ante chain, not a verdict on the messages
+	if tr.Codespace == "sdk" && tr.Code == 30 {
+		// the transaction's timeout height had passed (it was set in the past, or the transaction - or a replay of its exact
+		// bytes - came late): refused by the SDK's ante chain, not a verdict on the messages
 		return
 	}
 	if tr.Codespace == "sdk" && (tr.Code == 11 || tr.Code == 41) {
